@@ -45,6 +45,11 @@ main(int argc,char* argv[]) try {
     if (cmd.help_mode())
         return 0;
 
+    if (const char* arg = cmd.unknown_argument()) {
+        std::cout << "Unknown argument: " << arg << ", try the -h option" << std::endl;
+        return 1;
+    }
+
     if (argc<2 || input_filename=="" || output_filename=="") {
         std::cout << "Missing arguments, try the -h option" << std::endl;
         return 1;
